@@ -230,7 +230,16 @@ def check(case, ctx):
         # liveness: the same edit on the loaded system and on a freshly built one
         e = case["edit_after_load"]
         fresh, exc = F.build_case({"spec": cur, "id_seed": case["id_seed"] + 11})
-        involved = [e.get("obj")] + ([e.get("target")] if e.get("target") else []) + list(e.get("targets", []))
+        def names_in(ed):
+            out = [ed.get("obj"), ed.get("target"), ed.get("up")] + list(ed.get("targets", []))
+            for x in ed.get("args", []):
+                out += [y for y in (x if isinstance(x, list) else [x]) if isinstance(y, str)]
+            for sub in ed.get("edits", []):
+                out += names_in(sub)
+            return [x for x in out if x]
+        involved = names_in(e)
+        if e["op"] == "add_up":
+            involved = [x for x in involved if x != e["up"]]      # created by the edit itself
         if not all(x in lobjs for x in involved if x):
             labels.append("liveness_edit_on_unexported_object_skipped")
         elif fresh is not None:
